@@ -140,7 +140,15 @@ def _dag_structure(root: Any) -> collections.Counter:
     if traverser is None:
       return
     sub_values, _ = traverser.flatten(value)
-    for sub_value, element in zip(sub_values, traverser.path_elements(value)):
+    children = zip(sub_values, traverser.path_elements(value))
+    if isinstance(value, dict):
+      # Dict insertion order must not decide which reference to a shared object
+      # counts as its first visit.
+      children = sorted(
+          children,
+          key=lambda child: (type(child[1].key).__qualname__, repr(child[1].key)),
+      )
+    for sub_value, element in children:
       visit(sub_value, path + (element,))
 
   visit(root, ())
